@@ -83,7 +83,7 @@ class EigenvalueTransformation:
             matrix = matrix @ np.kron(self.processing.as_matrix(), id_for_projector) \
                             @ U_matrix
             start = 1
-        for i in range(start, dim):
+        for i in range(start, dim + start):
             self.processing.set_theta(self.theta_seq[2*i-start])
             matrix = matrix @ np.kron(self.processing.as_matrix(), id_for_projector) \
                             @ U_inv_matrix
@@ -113,7 +113,7 @@ class EigenvalueTransformation:
             circuit.prepend_circuit(self.processing.as_circuit())
             circuit.prepend_gate(self.block_encoding)
             start = 1
-        for i in range(start, dim):
+        for i in range(start, dim + start):
             self.processing.set_theta(self.theta_seq[2*i-start])
             circuit.prepend_circuit(self.processing.as_circuit())
             circuit.prepend_gate(self.block_encoding.inverse())
